@@ -354,6 +354,11 @@ pub fn features(p: &Program) -> Features {
                 f.assign |= inner.assign;
                 f.lambda |= inner.lambda;
                 f.rest |= inner.rest;
+                f.fnval |= inner.fnval;
+                f.at_pattern |= inner.at_pattern;
+                f.macros |= inner.macros;
+                f.defconst |= inner.defconst;
+                f.zero_leading_literal |= inner.zero_leading_literal;
             }
         }
     }
